@@ -130,10 +130,15 @@ def run_world(world, keep=False, base_dir=None, start_from=None):
             shutil.rmtree(wd, ignore_errors=True)
 
 
-def event_log_digest(records):
-    """Identity of a run: sha256 over the deterministic notebook records."""
+def event_log_digest(records, portable=False):
+    """Identity of a run: sha256 over the deterministic notebook records.
+
+    portable=True additionally drops the byte counts of pickle writes, which depend on
+    PYTHONHASHSEED (set-ordered __getstate__ dictionaries) while the state does not."""
     m = hashlib.sha256()
     for r in records:
+        if portable and r["k"] == "fs" and "nbytes" in r and ".pkl" in (r.get("path") or ""):
+            r = {k: v for k, v in r.items() if k not in ("nbytes", "bounds", "nwrites", "torn_at")}
         if r["k"] in ("exit",):
             r = {k: v for k, v in r.items() if k != "trace"}
         if "sha" in r and r["k"] in ("ckpt_done",):
